@@ -4,8 +4,8 @@ CONSTANTS
   NLog = 2
   MaxSeq = 2
   Caps = {99, 3}
-  StoreChoices <- AllIntervals
-  LogsChoices <- LogsSome
+  StoreChoices <- TwoLogs
+  LogsChoices <- LogsAll
   MaxMut = 0
   MutKinds = {}
   Faults = FALSE
